@@ -50,20 +50,37 @@ def _arr(case):
 
 def _line(case):
     k = case['kind']
+    if k == 'currank':
+        return _currank_line(case)
     s = (f"c07 kind={k} mode={MODES.index(case.get('mode', 'reflect'))} shape={gen.enc_shape(case['shape'])} "
          f"data={gen.enc_arr(case['data'])} bshape={gen.enc_shape(case['bshape'])} bc={gen.enc_arr(case['bc'])}")
     if k == 'rank':
         s += f" rank={case['rank']}"
     if k == 'tm' and case['dtype'] in DTNAMES:
         s += f" dt={DTNAMES[case['dtype']]}"
+    if k == 'tmf':
+        # data / bc are the values times 2^s as exact integers; the float run gets the values themselves (binary64 patterns;
+        # |K| < 2^24 for float32 so the narrowing in the driver is exact)
+        sc = case['scale']
+        s += (f" fdata={core.fmt_floats([v / sc for v in case['data']])} fbc={core.fmt_floats([v / sc for v in case['bc']])}"
+              f" ft={'f32' if case['dtype'] == 'float32' else 'f64'}")
+    if k == 'majority':
+        s += f" n={case['n']}"
     return s
+
+
+def _currank_line(case):
+    return (f"c07 kind=currank n={gen.enc_arr(case['n'])} n2={gen.enc_arr(case['n2'])} rank={gen.enc_arr(case['rank'])}")
 
 
 def _call(case, Al):
     import mahotas as mh
     k = case['kind']
     dt = Al.dtype
-    B = np.array(case['bc'], dtype=object).astype(dt).reshape(case['bshape']) if len(case['bc']) else np.zeros(case['bshape'], dt)
+    if k == 'tmf':
+        B = (np.array(case['bc'], dtype=np.float64) / case['scale']).astype(dt).reshape(case['bshape'])
+    else:
+        B = np.array(case['bc'], dtype=object).astype(dt).reshape(case['bshape']) if len(case['bc']) else np.zeros(case['bshape'], dt)
     B = gen.relayout(B, case.get('blayout', 'C')) if B.size else B
     with warnings.catch_warnings():
         warnings.simplefilter('ignore')
@@ -75,8 +92,10 @@ def _call(case, Al):
             return mh.median_filter(Al, B, mode=case['mode'])
         if k == 'mean':
             return mh.mean_filter(Al, B, mode=case['mode'])
-        if k == 'tm':
+        if k in ('tm', 'tmf'):
             return mh.template_match(Al, B, mode=case['mode'])
+        if k == 'majority':
+            return mh.majority_filter(Al, case['n'])
         if k == 'find':
             return mh.find(Al, B)
     raise ValueError(k)
@@ -109,6 +128,10 @@ def _judge(case, got, drv):
             badm = [i for i, (a, b) in enumerate(zip(g, model)) if b is not None and a != b]
             if badm or [x is None for x in spec] != [x is None for x in model]:
                 out.append(dict(kind='model', key=f'{k}-model', detail=dict(pixels=badm[:8], got=g, model=model)))
+            # currank evaluated in binary64 as the C++ does (C07_currank_double_eq_floor: = the integer floor)
+            dmodel = _opt(drv.get('dmodel', ''))
+            if not out and dmodel != model:
+                out.append(dict(kind='model', key=f'{k}-currank-double', detail=dict(model=model, dmodel=dmodel)))
         case['_undefined'] = sum(1 for x in spec if x is None)
     elif k == 'mean':
         if got.dtype != np.float64:
@@ -148,6 +171,48 @@ def _judge(case, got, drv):
             badm = [i for i, (a, b) in enumerate(zip(g, model)) if lo <= b <= hi and a != b]
             if badm:
                 out.append(dict(kind='model', key='template_match-model', detail=dict(pixels=badm[:8], got=g, model=model)))
+    elif k == 'tmf':
+        if got.dtype != np.dtype(case['dtype']):
+            return [dict(kind='property', key='template_match:dtype', detail=dict(dtype=str(got.dtype)))]
+        g = got.ravel(order='C').astype(np.float64)
+        spec, obs = core.ints(drv['spec']), core.ints(drv['obs'])
+        model = core.floats(drv['model'])
+        sc2 = case['scale'] ** 2
+        nt = int(np.prod(case['bshape']))
+        f32 = case['dtype'] == 'float32'
+        u = 2.0 ** -24 if f32 else 2.0 ** -53
+        lim = 2 ** 24 if f32 else 2 ** 53
+        bad, nexact = [], 0
+        for i, (a, sp, o) in enumerate(zip(g.tolist(), spec, obs)):
+            if case['mode'] == 'constant' and not o:
+                continue
+            if not np.isfinite(a):
+                bad.append(i); continue
+            ga = Fraction(a) * sc2                          # the real output, exactly, scaled like the specification
+            if case['scale'] == 1 and sp <= lim:
+                # integer values, exact SSD representable: no operation rounds (C07_template_match_float_exact)
+                nexact += 1
+                if ga != sp:
+                    bad.append(i)
+            elif abs(ga - sp) > Fraction(2 * (nt + 3)) * Fraction(u) * sp:
+                # every term is non-negative: (1-u)^(nt+3) S <= computed <= (1+u)^(nt+3) S
+                bad.append(i)
+        case['_exact'] = nexact
+        if bad:
+            out.append(dict(kind='property', key='template_match:float', detail=dict(pixels=bad[:8], got=g.tolist(), spec=spec,
+                                                                                   scale2=sc2, mode=case['mode'])))
+        elif len(model) != len(g) or not np.array_equal(g.view(np.uint64), model.view(np.uint64)):
+            badm = [i for i in range(min(len(g), len(model))) if g.view(np.uint64)[i] != model.view(np.uint64)[i]]
+            out.append(dict(kind='model', key='template_match-float-model', detail=dict(pixels=badm[:8], got=g.tolist(),
+                                                                                       model=model.tolist())))
+    elif k == 'majority':
+        if got.dtype != np.bool_:
+            return [dict(kind='property', key='majority_filter:dtype', detail=dict(dtype=str(got.dtype)))]
+        g = [int(x) for x in got.ravel(order='C').tolist()]
+        spec, model = core.ints(drv['spec']), core.ints(drv['model'])
+        # outside the fixed statement of C07: the closed form proved equal to the loops (C07_majority_closed_form)
+        if g != spec or g != model:
+            out.append(dict(kind='model', key='majority_filter-model', detail=dict(got=g, spec=spec, model=model)))
     elif k == 'find':
         if got.dtype != np.bool_:
             return [dict(kind='property', key='find:dtype', detail=dict(dtype=str(got.dtype)))]
@@ -170,6 +235,16 @@ def evaluate(cases):
     lines = [_line(c) for c in cases]
     drvs = core.drive(lines)
     for case, line, drv in zip(cases, lines, drvs):
+        if case['kind'] == 'currank':
+            # block case: npy_intp(n*rank/double(N2)) in the driver's binary64 against the integer floor
+            f = []
+            if 'error' in drv:
+                raise core.Infra('driver: ' + drv['error'])
+            if not drv.get('model') or drv.get('model') != drv.get('spec'):
+                f.append(dict(kind='model', key='currank-double', detail=dict(model=drv.get('model'), spec=drv.get('spec')),
+                              case=case))
+            res.append(dict(findings=f, nontrivial=True, sig=line, tags=dict(kind='currank'), n=len(case['n'])))
+            continue
         A = _arr(case)
         Al = gen.relayout(A, case.get('layout', 'C'))
         before = Al.copy()
@@ -194,11 +269,16 @@ def evaluate(cases):
             tags['pixels_without_samples'] = 'yes'
         if case.get('_skipped'):
             tags['pixels_skipped'] = 'yes'
+        if case['kind'] == 'tmf':
+            tags['tmf_values'] = case.get('values', '-')
+            tags['tmf_exact_pixels'] = 'yes' if case.get('_exact') else 'no'
+        if case['kind'] == 'majority':
+            tags['majority_n'] = str(case['n'])
         if case['kind'] == 'tm':
             tags['tm_overflow'] = ('n/a' if np.dtype(case['dtype']).kind == 'f' else
                                    'yes' if case.get('_overflow') else 'no')
             tags['tm_values'] = case.get('values', 'small')
-        nt = got is not None and (bool(np.any(got)) if case['kind'] == 'find' else
+        nt = got is not None and (bool(np.any(got)) if case['kind'] in ('find', 'majority') else
                                   not np.array_equal(np.asarray(got, np.float64), np.asarray(A, np.float64)))
         res.append(dict(findings=f, nontrivial=bool(nt), sig=line + case.get('layout', 'C') + case['dtype'], tags=tags))
     return res
@@ -287,9 +367,38 @@ def _find_cases(rng, tier):
     return out
 
 
+def _currank_cases(rng, nblocks):
+    """triples (n, N2, rank), n <= N2, rank < N2 < 2^26: the binary64 expression of rank_filter against the floor; half
+    of them with n*rank one below / exactly at a multiple of N2 (quotient just below / at an integer)"""
+    out = []
+    for _ in range(nblocks):
+        ns, n2s, rs = [], [], []
+        for _ in range(2000):
+            q = rng.random()
+            if q < 0.3:
+                N2 = rng.randint(1, 40); n = rng.randint(0, N2); r = rng.randrange(N2)
+            elif q < 0.5:
+                N2 = rng.randint(1, 2 ** 26 - 1); n = rng.randint(0, N2); r = rng.randrange(N2)
+            elif q < 0.75:                     # n * rank = N2 - 1 (just below 1) or a multiple of N2 minus 1
+                a, b = rng.randint(1, 2 ** 13 - 1), rng.randint(1, 2 ** 13 - 1)
+                N2 = a * b + 1; n, r = a, b
+            else:                              # n * rank an exact multiple of N2
+                N2 = rng.randint(2, 2 ** 13); k = rng.randint(1, N2 - 1)
+                n, r = k, N2 - 1
+                if rng.random() < 0.5:
+                    g = rng.randint(1, 2 ** 12); N2 = N2 * g; n = k * g; r = min(N2 - 1, (N2 // g) * rng.randint(0, g - 1))
+            if N2 >= 2 ** 26 or n > N2 or r >= N2:
+                continue
+            ns.append(n); n2s.append(N2); rs.append(r)
+        out.append(dict(kind='currank', n=ns, n2=n2s, rank=rs))
+    return out
+
+
 def cases(rng, tier):
     out = list(_corpus()) if tier != 'search' else []
     out += _find_cases(rng, 'quick' if tier == 'quick' else 'thorough')
+    if tier != 'search':
+        out += _currank_cases(rng, 2 if tier == 'quick' else 20)
     nrand = dict(quick=10000, thorough=200000, search=20000)[tier]
     for _ in range(nrand):
         r = rng.random()
@@ -319,7 +428,32 @@ def cases(rng, tier):
                 data = [max(-2 ** 40, min(2 ** 40, v)) for v in data]
             out.append(dict(kind='mean', dtype=dtype, shape=shape, data=data, bshape=bshape, bc=bc,
                             mode=mode if rng.random() < 0.7 else 'ignore', layout=layout))
-        elif r < 0.90:
+        elif r < 0.78:
+            # template_match on float images with arbitrary dyadic values K / 2^s (both signs, fractions, magnitudes up to
+            # the significand): every operation of the kernel rounds; bit for bit against the generic kernel run by the
+            # driver in binary64 / binary32, and against the exact SSD within the error bound of the summation
+            nd = len(shape)
+            fdt = rng.choice(['float32', 'float64'])
+            tshape = ([rng.choice([1, 2, 3, 4]) for _ in range(nd)] if rng.random() < 0.8 else [s_ + rng.choice([0, 1, 3]) for s_ in shape])
+            while int(np.prod(tshape)) > 60:
+                tshape[tshape.index(max(tshape))] = max(1, max(tshape) // 2)
+            nt = int(np.prod(tshape))
+            sexp = rng.choice([0, 0, 3, 10])
+            top = 2 ** 24 - 1 if fdt == 'float32' else 2 ** 52
+            values = rng.choice(['small', 'medium', 'significand', 'mixed'])
+            def kv():
+                mag = dict(small=9, medium=3000, significand=top)[values if values != 'mixed' else rng.choice(['small', 'medium', 'significand'])]
+                return rng.randint(-mag, mag)
+            out.append(dict(kind='tmf', dtype=fdt, shape=shape, data=[kv() for _ in range(n)], bshape=tshape,
+                            bc=[kv() for _ in range(nt)], scale=2 ** sexp, mode=mode, layout=layout,
+                            blayout=rng.choice(['C', 'C', 'F', 'strided']), values=values))
+        elif r < 0.81:
+            rows, cols = rng.randint(1, 9), rng.randint(1, 9)
+            dens = rng.choice([0.3, 0.5, 0.5, 0.7, 1.0])
+            out.append(dict(kind='majority', dtype='bool', shape=[rows, cols],
+                            data=[int(rng.random() < dens) for _ in range(rows * cols)], n=rng.randint(2, 7),
+                            bshape=[1, 1], bc=[0], layout=layout))
+        elif r < 0.93:
             nd = len(shape)
             q = rng.random()
             tshape = ([rng.choice([1, 2, 3, 4]) for _ in range(nd)] if q < 0.7 else [s + rng.choice([0, 1, 3]) for s in shape])
@@ -356,6 +490,12 @@ def cases(rng, tier):
 
 
 def shrink(case):
+    if case['kind'] == 'currank':
+        m = len(case['n'])
+        if m > 1:
+            for sl in (slice(0, m // 2), slice(m // 2, m)):
+                yield dict(case, n=case['n'][sl], n2=case['n2'][sl], rank=case['rank'][sl])
+        return
     shape, data = case['shape'], case['data']
     A = np.array(data, dtype=object).reshape(shape)
     k = case['kind']
@@ -367,7 +507,7 @@ def shrink(case):
     for key in ('layout', 'blayout'):
         if case.get(key, 'C') != 'C':
             yield dict(case, **{key: 'C'})
-    if case.get('default_bc'):
+    if case.get('default_bc') or k == 'majority':
         return
     Bc = np.array(case['bc'], dtype=object).reshape(case['bshape'])
     for ax in range(Bc.ndim):
